@@ -13,7 +13,9 @@ From GZ Require Import C01.WrapModel C01.WrapProofs.
 Import ListNotations.
 Open Scope Z_scope.
 
-(* T1  A call is rejected (ErrServiceUnavailable, or the fallback's result) only if, among
+(* T1  A call is rejected (ErrServiceUnavailable, or the fallback's result, comes back and the
+   request did not run - an admitted request may itself return ErrServiceUnavailable, e.g.
+   from a nested breaker: see unavailable_iff_rejected) only if, among
    the calls recorded in the window accept() read, non-accepted > protection +
    (minK - 1) * accepted.  (GenProofs.v: with today's constants this reads
    10 * (total - accepts) > 50 + accepts.) *)
@@ -22,7 +24,7 @@ Theorem reject_only_if_over : forall cfg base cs c,
   let w := reach cfg base cs in
   let now := w_clock w + k_gap c in
   let o := snd (step cfg w c) in
-  o_res o = RUnavailable \/ o_res o = RFallback ->
+  (o_res o = RUnavailable \/ o_res o = RFallback) /\ o_req o = 0 ->
   let vals := window_vals cfg base (w_marks w) now in
   over cfg (n_total vals) (n_success vals).
 Proof. exact reject_only_if_over_run. Qed.
@@ -42,10 +44,12 @@ Theorem over_means_5_plus_10_percent : forall cfg total accepts,
 Proof. exact over_property_text. Qed.
 Print Assumptions over_means_5_plus_10_percent.
 
-(* the returned error class identifies the rejection *)
+(* what identifies a rejection from outside: the returned value AND the request not having run.
+   (The value alone does not: the request of an admitted call may return
+   ErrServiceUnavailable or the fallback's value itself - OErrSU, OErrFB.) *)
 Theorem unavailable_iff_rejected : forall cfg w c,
   let o := snd (step cfg w c) in
-  (o_res o = RUnavailable \/ o_res o = RFallback) <-> o_verdict o = Some VReject.
+  ((o_res o = RUnavailable \/ o_res o = RFallback) /\ o_req o = 0) <-> o_verdict o = Some VReject.
 Proof. exact unavailable_is_reject. Qed.
 Print Assumptions unavailable_iff_rejected.
 
@@ -77,17 +81,20 @@ Proof. exact exact_accounting_step. Qed.
 Print Assumptions exact_accounting.
 
 (* ... where success/failure follows the acceptability predicate, the error is returned
-   unchanged and a panic is a failure that is re-raised *)
-Theorem acceptability : 
-  (forall e, e = EDo \/ e = EDoFb ->
-     counts_as_success e OOk = true /\ counts_as_success e OErrU = false /\
-     counts_as_success e OErrA = false /\ counts_as_success e OPanic = false) /\
-  (forall e, e = EDoAcc \/ e = EDoFbAcc ->
-     counts_as_success e OOk = true /\ counts_as_success e OErrU = false /\
-     counts_as_success e OErrA = true /\ counts_as_success e OPanic = false) /\
+   unchanged and a panic is a failure that is re-raised - for EVERY value the request may
+   produce, including the ones that collide with the breaker's own (ErrServiceUnavailable bare
+   or wrapped, context.Canceled / DeadlineExceeded under a live context, the fallback's value,
+   a panic with ErrServiceUnavailable) *)
+Theorem acceptability :
+  (forall e o, e = EDo \/ e = EDoFb -> (counts_as_success e o = true <-> o = OOk)) /\
+  (forall e o, e = EDoAcc \/ e = EDoFbAcc ->
+     (counts_as_success e o = true <-> o = OOk \/ o = OErrA \/ o = OErrSUW \/ o = OCanceled)) /\
   (forall e, is_allow e = false ->
      result_of e OOk = RNil /\ result_of e OErrU = RErrU /\
-     result_of e OErrA = RErrA /\ result_of e OPanic = RPanic) /\
+     result_of e OErrA = RErrA /\ result_of e OPanic = RPanic /\
+     result_of e OErrSU = RUnavailable /\ result_of e OErrSUW = RErrSUW /\
+     result_of e OCanceled = RCtxDone /\ result_of e ODeadline = RDeadline /\
+     result_of e OErrFB = RFallback /\ result_of e OPanicSU = RPanicSU) /\
   (forall o, counts_as_success EAllowAccept o = true /\ counts_as_success EAllowReject o = false).
 Proof. exact acceptability_table. Qed.
 Print Assumptions acceptability.
